@@ -19,12 +19,12 @@ MANIFEST = {
                   "options, for the REPAIRED text; the pinned text is refuted at 9 sites by concrete shape lists; the prologues (size guard "
                   "expectedSize / remaining bytes, per-entry size as a function of version and flags, make([]T, n) with its element size, "
                   "entry loop with the accumulated-error reader) of trun stts ctts stsc stsz stco co64 stss sdtp saiz saio senc sbgp subs elst tfra "
-                  "sidx pssh ssix tref-type leva uuid(tfxd/tfrf/piff-senc/other) ftyp styp and the whole sgpd entry loop (seig/roll/rap/alst/other) return for EVERY header and body, request at most a*size+b bytes and loop at "
+                  "sidx pssh ssix tref-type leva uuid(tfxd/tfrf/piff-senc/other) ftyp styp, both phases of senc (DecodeSenc/SR guard, then ParseReadBox/parseAndFillSamples: <= 72*len+360 bytes) and the whole sgpd entry loop (seig/roll/rap/alst/other) return for EVERY header and body, request at most a*size+b bytes and loop at "
                   "most size/entry+c times (C04_alloc_<box>; box level on both paths: <= 172*len+1048560 bytes (sgpd's factor; <= 12*len for the others), <= 6*len+65536 iterations for "
                   "every byte string below 32 GiB), with machine-checked refutations for the pinned sgpd/alst text (4 GiB from 28 bytes, "
                   "repaired) and for ctts at exactly 32 GiB (uint32 wrap of entryCount+1, not reproducible). "
                   "EXPLORED only: the other ~110 leaf decoder bodies, all encoder/Info bodies, the value-dependent tails of ssix/leva, "
-                  "senc.ParseReadBox, real wall-clock time and real heap (the model's ticks are "
+                  "real wall-clock time and real heap (the model's ticks are "
                   "not seconds): structured mutation fuzzing of all testdata files and boxes, and count/length-field inflation (0, 1, exact, "
                   "exact+1, 1024, 1025, 2^16, 2^22, 2^31-1, 2^31, 2^32-4, 2^32-1 clipped to the field width) of every count or length field of "
                   "34 box types under every version/flags combination that changes the per-entry size (incl. size 0), compact and "
@@ -82,7 +82,7 @@ def run(ctx):
     rc, cases, e = harness(exe, ["corr", "-seed", ctx.seed, "-n", n, "-exh", exh], 3000)
     if rc != 0:
         raise common.CheckError("harness corr failed rc=%s: %s" % (rc, e[-1000:]))
-    lines = [l for l in cases.splitlines() if l[:2] in ("R\t", "B\t", "A\t", "C\t")]
+    lines = [l for l in cases.splitlines() if l[:2] in ("R\t", "B\t", "A\t", "C\t", "Q\t")]
     fails = [l.split("\t") for l in cases.splitlines() if l.startswith("FAIL\t")]
     stats = [l.split("\t") for l in cases.splitlines() if l.startswith("STATS\t")]
     res = common.run_model(model, "\n".join(lines) + "\n")
@@ -90,7 +90,7 @@ def run(ctx):
     distinct = len(set(l.split("\t", 2)[2] for l in lines))
     ctx.cov["evaluations"] += len(lines)
     ctx.cov["distinct_nontrivial"] += distinct
-    kinds = {k: sum(1 for l in lines if l.startswith(k + "\t")) for k in ("R", "B", "A", "C")}
+    kinds = {k: sum(1 for l in lines if l.startswith(k + "\t")) for k in ("R", "B", "A", "C", "Q")}
     ctx.notes["correspondence"] = {
         "cases": len(lines), "mismatches": len(mism), "distinct_cases": distinct, "kinds": kinds,
         "exhaustive_shape_list_length": exh, "shape_alphabet": 29,
@@ -101,7 +101,8 @@ def run(ctx):
                               "observables: outcome class, grouping, StartPos, Info x3, Encode/EncodeSW x2 modes; C: count/length-field inflation of "
                               "the 26 modelled table boxes (every version/flags variant x field x 12 values, compact/large header, trailing "
                               "bytes, 0..3 and 16384 real entries) + random corruption of those, each on both paths; observables: outcome class, "
-                              "decoded entry count, log2 bucket of the bytes allocated",
+                              "decoded entry count, log2 bucket of the bytes allocated; Q: every senc case x perSampleIVSize 0/8/16/1 x both paths "
+                              "through decode then ParseReadBox: both classes, len(IVs), len(SubSamples), allocation bucket",
     }
     if stats:
         ctx.notes["corr_worker_stats"] = {"worst_op_ns": int(stats[0][1]), "on_bytes": int(stats[0][2]),
